@@ -55,7 +55,9 @@ func objOps(thorough bool) []objOp {
 			add(model.BiDelete+"("+x+","+k+")", false, func(K float64) []*model.N { return st(model.CallN(model.BiDelete, id(x), model.Str(k))) })
 			add("read "+x+"."+k, false, func(K float64) []*model.N { return []*model.N{model.Print(model.Prop(id(x), k))} })
 		}
-		add(x+".k1={k2:K}", false, func(K float64) []*model.N { return st(model.PAsg(id(x), "k1", model.Obj([]string{"k2"}, []*model.N{num(K)}))) })
+		add(x+".k1={k2:K}", false, func(K float64) []*model.N {
+			return st(model.PAsg(id(x), "k1", model.Obj([]string{"k2"}, []*model.N{num(K)})))
+		})
 		add(x+".k1=[K]", false, func(K float64) []*model.N { return st(model.PAsg(id(x), "k1", model.Arr(num(K)))) })
 		add(x+".k1.k2=K", false, func(K float64) []*model.N { return st(model.PAsg(model.Prop(id(x), "k1"), "k2", num(K))) })
 		add(x+".k1[0]=K", false, func(K float64) []*model.N { return st(model.IAsg(model.Prop(id(x), "k1"), num(0), num(K))) })
@@ -73,7 +75,9 @@ func objOps(thorough bool) []objOp {
 		add(". on "+v.Name, true, func(K float64) []*model.N { return []*model.N{model.Print(model.Prop(model.Grp(v.Mk()), "k1"))} })
 		add(".= on "+v.Name, true, func(K float64) []*model.N { return st(model.PAsg(model.Grp(v.Mk()), "k1", num(K))) })
 		add(model.BiDelete+" on "+v.Name, true, func(K float64) []*model.N { return st(model.CallN(model.BiDelete, model.Grp(v.Mk()), model.Str("k1"))) })
-		add(model.BiKeys+" on "+v.Name, true, func(K float64) []*model.N { return []*model.N{model.Print(model.CallN(model.BiKeys, model.Grp(v.Mk())))} })
+		add(model.BiKeys+" on "+v.Name, true, func(K float64) []*model.N {
+			return []*model.N{model.Print(model.CallN(model.BiKeys, model.Grp(v.Mk())))}
+		})
 	}
 	add(model.BiDelete+"(o, 1)", true, func(K float64) []*model.N { return st(model.CallN(model.BiDelete, id("o"), num(1))) })
 	return ops
